@@ -19,6 +19,7 @@ gv := {|acc, x| acc.g(x)}
 unacc := {|r| r.l if r != nil}
 nn := Nil.bear({reason: "none"}).new
 kvOf := {|x| ["k#{x.id}", x.f]}
+wrappedErr := 1.try./(0).err
 `
 
 // behaviours of the callee at one element
@@ -27,7 +28,11 @@ const (
 	bNil   = "nil"
 	bRaise = "raise"
 	bNone  = "nil-element" // the element itself is nil
+	bWrap  = "wrapped-error-value" // the callee returns a caught error as a plain value (not nil, not raised)
+	bStop  = "raise-StopIterErr"   // the callee raises an error of the kind iterators use to say "exhausted"
 )
+
+const c04wrapIns = "[ZeroDivisionErr: cannot be divided by 0]"
 
 // c04nilAlt: spell nil elements at alternating positions as a nil descendant (`Nil.bear({…}).new`, which
 // is nil for the language: == nil, nil? true) instead of the literal.
@@ -44,6 +49,10 @@ func c04elem(k int, beh string) string {
 		return fmt.Sprintf(`{id: %d, f: m{"C%d".p; nil}, f2: m{|t| "C%d".p; nil}}`, k, k, k)
 	case bRaise:
 		return fmt.Sprintf(`{id: %d, f: m{"C%d".p; raise ValueErr.new("m%d")}, f2: m{|t| "C%d".p; raise ValueErr.new("m%d")}}`, k, k, k, k, k)
+	case bStop:
+		return fmt.Sprintf(`{id: %d, f: m{"C%d".p; raise StopIterErr.new("m%d")}, f2: m{|t| "C%d".p; raise StopIterErr.new("m%d")}}`, k, k, k, k, k)
+	case bWrap:
+		return fmt.Sprintf(`{id: %d, f: m{"C%d".p; wrappedErr}, f2: m{|t| "C%d".p; [wrappedErr, t]}}`, k, k, k)
 	}
 	return "nil"
 }
@@ -79,6 +88,8 @@ func c04listModel(add string, behs []string) c04out {
 		switch b {
 		case bVal:
 			o.parts = append(o.parts, fmt.Sprint(100+k))
+		case bWrap:
+			o.parts = append(o.parts, "W")
 		case bNil:
 			switch add {
 			case "=":
@@ -86,12 +97,12 @@ func c04listModel(add string, behs []string) c04out {
 			case "~":
 				o.parts = append(o.parts, fmt.Sprintf("E%d", k))
 			}
-		case bRaise:
+		case bRaise, bStop:
 			if add == "~" {
 				o.parts = append(o.parts, fmt.Sprintf("E%d", k))
 				continue
 			}
-			return c04out{isErr: true, kind: "ValueErr", msg: fmt.Sprintf("m%d", k), calls: o.calls}
+			return c04out{isErr: true, kind: map[string]string{bRaise: "ValueErr", bStop: "StopIterErr"}[b], msg: fmt.Sprintf("m%d", k), calls: o.calls}
 		}
 	}
 	return o
@@ -118,16 +129,18 @@ func c04reduceModel(add string, behs []string) c04out {
 		switch b {
 		case bVal:
 			acc = append(acc, fmt.Sprint(100+k))
+		case bWrap:
+			acc = append(acc, "W")
 		case bNil:
 			if add == "~" {
 				continue // the accumulator is substituted
 			}
 			accNil = true
-		case bRaise:
+		case bRaise, bStop:
 			if add == "~" {
 				continue
 			}
-			return c04out{isErr: true, kind: "ValueErr", msg: fmt.Sprintf("m%d", k), calls: o.calls}
+			return c04out{isErr: true, kind: map[string]string{bRaise: "ValueErr", bStop: "StopIterErr"}[b], msg: fmt.Sprintf("m%d", k), calls: o.calls}
 		}
 	}
 	o.accParts, o.accNil = acc, accNil
@@ -167,7 +180,7 @@ func runC04(w *fw.W) {
 			vectors = append(vectors, append([]string{}, cur...))
 			return
 		}
-		for _, b := range []string{bVal, bNil, bRaise, bNone} {
+		for _, b := range []string{bVal, bNil, bRaise, bNone, bWrap, bStop} {
 			rec(append(cur, b), n)
 		}
 	}
@@ -220,6 +233,7 @@ func runC04(w *fw.W) {
 					o := ip.Run(setup+fmt.Sprintf("e%d", k), interp.Options{})
 					einsp[fmt.Sprintf("E%d", k)] = o.Inspect
 				}
+				einsp["W"] = c04wrapIns
 				render := func(parts []string) string {
 					var out []string
 					for _, p := range parts {
@@ -293,6 +307,9 @@ func runC04(w *fw.W) {
 							if len(p) == 3 && p[0] == '1' {
 								parts2[i] = "[" + p + `, "t"]`
 							}
+							if p == "W" {
+								parts2[i] = "[" + c04wrapIns + `, "t"]`
+							}
 						}
 						lm2 := lm
 						if lm2.isErr && lm2.msg == "property `f` is not defined." {
@@ -360,7 +377,7 @@ func runC04(w *fw.W) {
 					rm := c04reduceModel(radd, behs)
 					want := "nil"
 					if !rm.isErr && !rm.accNil {
-						want = "[" + strings.Join(rm.accParts, ", ") + "]"
+						want = render(rm.accParts)
 					}
 					rforms := map[string]string{
 						"prop":    "unacc(" + recv + add + "$(Acc([]))g)",
@@ -378,6 +395,9 @@ func runC04(w *fw.W) {
 					if !rm.isErr && !rm.accNil {
 						var ps []string
 						for _, p := range rm.accParts {
+							if p == "W" {
+								p = c04wrapIns
+							}
 							ps = append(ps, "["+p+`, "t"]`)
 						}
 						want2 = "[" + strings.Join(ps, ", ") + "]"
